@@ -2,6 +2,7 @@
 import contextlib
 import io
 import itertools
+import zlib
 import logging
 
 import numpy as np
@@ -37,6 +38,7 @@ RELATIONS = [
     ("gcp:lbfgsb", "print"), ("gcp:lbfgsb", "seed"), ("gcp:sgd", "seed"), ("gcp:adam", "seed"), ("gcp:sgd", "print"),
     ("gcp:sgd", "seed-sparse"), ("gcp:adam", "seed-sparse"), ("gcp:lbfgsb", "reused-optimizer"), ("gcp:adam", "reused-optimizer"),
     ("gcp:lbfgsb", "relabel"), ("gcp:lbfgsb", "relabel4"), ("cp_als", "relabel4"),
+    ("gcp:lbfgsb", "guess-form"), ("gcp:adam", "guess-form"),
 ]
 # four-way shapes for the relabelling relation: a dominant first / last / interior mode moves the split of the all-modes MTTKRP (GCP
 # gradients) so that two or more modes fall into one partial product; interior modes of a 4-way dense MTTKRP (CP-ALS)
@@ -53,12 +55,22 @@ def gen_cases(tier, seed):
     reps = 4 if tier == "quick" else 40
     for rep_i in range(reps):
         for alg, rel in RELATIONS:
+            # a random stream per (repetition, algorithm, relation): adding a relation does not move the inputs of the others
+            rng = gen.rng_for(seed, ID, tier, rep_i, alg, rel)
             N = 3 if rel == "relabel" else int(rng.integers(3, 5))
             shp = [int(s) for s in rng.integers(3, 6, size=N)]
             if rel == "relabel4":
                 continue
             yield {"w": "pair", "alg": alg, "rel": rel, "shape": shp, "R": 2, "zero_guess": bool(rep_i % 2),
-                   "gseed": int(rng.integers(0, 2 ** 31)), "cseed": int(seed) * 217645177 % (2 ** 31) + next(cs)}
+                   "gseed": int(rng.integers(0, 2 ** 31)), "cseed": zlib.crc32(f"{seed}/{rep_i}/{alg}/{rel}".encode()) % (2 ** 31)}
+    # guesses with an all-zero factor row (the model is zero on a slice that holds counts): every CP-APR algorithm, dense vs sparse
+    for rep_i in range(3 if tier == "quick" else 12):
+        for alg in ("cp_apr:mu", "cp_apr:pdnr"):
+            rng = gen.rng_for(seed, ID, tier, rep_i, alg, "zero-row")
+            shp = [int(s) for s in rng.integers(3, 6, size=3)]
+            yield {"w": "pair", "alg": alg, "rel": "dense-sparse", "shape": shp, "R": 2, "zero_guess": True, "zero_row": True,
+                   "gseed": int(rng.integers(0, 2 ** 31)), "cseed": zlib.crc32(f"{seed}/{rep_i}/{alg}/zero-row".encode()) % (2 ** 31)}
+    rng = gen.rng_for(seed, ID, tier, "four-way")
     for shp in SHAPES4:
         for alg in ("gcp:lbfgsb", "cp_als"):
             yield {"w": "pair", "alg": alg, "rel": "relabel4", "shape": list(shp), "R": 2, "zero_guess": False,
@@ -244,8 +256,11 @@ def run_case(case, ctx):
         if case.get("zero_guess"):
             # inadmissible zeros in the first factor of the guess and a longer run: exercises the zero-repair step
             F0 = M0.factor_matrices[0]
+            whole_row = bool((gen.pick(case) // 4) % 2 == 0) or bool(case.get("zero_row"))      # every component zero in one row: the model is zero on that whole slice
+            row0 = int(rng.integers(0, F0.shape[0]))
             for r_ in range(R):
-                F0[int(rng.integers(0, F0.shape[0])), r_] = 0.0
+                F0[row0 if whole_row else int(rng.integers(0, F0.shape[0])), r_] = 0.0
+            ctx.feat(zero_row=whole_row)
             M0.weights[:] = np.round(rng.uniform(5.0, 30.0, size=R), 2)
             kw["maxiters"] = 25
             kw["stoptol"] = 1e-6
@@ -311,6 +326,16 @@ def run_case(case, ctx):
             a = seeded(ttb.gcp_opt, T, R, Objectives.GAUSSIAN, opt_used, init=M0g.copy(), printitn=0)
             b = seeded(ttb.gcp_opt, T, R, Objectives.GAUSSIAN, opt_fresh, init=M0g.copy(), printitn=0)
             _cmp(ctx, op, denote(a[0]), denote(b[0]), "optimizer object used before vs fresh optimizer object", exact=True, other=("larger" if gen.pick(case) % 2 else "smaller"))
+        elif rel == "guess-form":
+            # the same starting guess handed over as a Kruskal tensor, as a list and as a tuple of its factor matrices
+            fm0 = [rng.random((s_, R)) * float(rng.choice([0.2, 1.0, 5.0])) for s_ in shape]
+            a = seeded(ttb.gcp_opt, T, R, Objectives.GAUSSIAN, mk(), init=ttb.ktensor([f.copy() for f in fm0]), printitn=0)
+            for form in ("list", "tuple"):
+                g_ = [f.copy() for f in fm0] if form == "list" else tuple(f.copy() for f in fm0)
+                b = seeded(ttb.gcp_opt, T, R, Objectives.GAUSSIAN, mk(), init=g_, printitn=0)
+                _cmp(ctx, op, denote(a[0]), denote(b[0]), f"guess as a Kruskal tensor vs as a {form} of matrices", exact=True, form=form)
+                same_start = all(np.array_equal(x_, y_) for x_, y_ in zip(a[1].factor_matrices, b[1].factor_matrices)) and np.array_equal(a[1].weights, b[1].weights)
+                ctx.check(same_start, op, "DIFFERS", f"the returned starting guess differs between the Kruskal and the {form} form", which="guess", form=form)
         elif rel == "seed-sparse":
             # sparse data and a sampler that takes fewer nonzeros / zeros than there are: every random draw of the run (starting guess,
             # sampled nonzeros, sampled zeros) must come from the global stream the seed controls
